@@ -6,6 +6,7 @@ import Driver.Node
 import Driver.FD
 import Driver.Codec
 import Driver.Gossip
+import Driver.Gossiph
 import Driver.Rebalance
 import Driver.Syncer
 import Driver.WS
@@ -32,6 +33,7 @@ def engines : List (String × Engine) :=
    ("syncer", SyncerEngine.engine),
    ("ws", WSEngine.engine),
    ("http", HttpEngine.engine),
+   ("gossiph", GossiphEngine.engine),
    ("gossip", GossipEngine.engine)]
 
 partial def loop (h : IO.FS.Stream) (out : IO.FS.Stream) (e : Engine) (s : e.σ) : IO Unit := do
